@@ -572,7 +572,7 @@ impl SyncResponder {
             return Ok(length);
         }
 
-        let (commands, command_data, next_send) = self.get_commands(provider)?;
+        let (commands, command_data, next_send, resume) = self.get_commands(provider)?;
 
         let message = SyncResponseMessage::SyncResponse {
             session_id: self.session_id()?,
@@ -596,6 +596,9 @@ impl SyncResponder {
             .checked_add(1)
             .assume("message_index overflow")?;
         self.next_send = next_send;
+        if let Some((i, location)) = resume {
+            *self.to_send.get_mut(i).assume("send index in bounds")? = location;
+        }
         Ok(total_length)
     }
 
@@ -623,7 +626,7 @@ impl SyncResponder {
             }
         };
         self.to_send = Self::find_needed_segments(&self.has, storage, buffers)?;
-        let (commands, command_data, next_send) = self.get_commands(provider)?;
+        let (commands, command_data, next_send, resume) = self.get_commands(provider)?;
         let mut length = 0;
         if !commands.is_empty() {
             let message = SyncType::Push {
@@ -651,6 +654,9 @@ impl SyncResponder {
                 .checked_add(1)
                 .assume("message_index increment overflow")?;
             self.next_send = next_send;
+            if let Some((i, location)) = resume {
+                *self.to_send.get_mut(i).assume("send index in bounds")? = location;
+            }
             length = total_length;
         }
         Ok(length)
@@ -664,6 +670,7 @@ impl SyncResponder {
             Vec<CommandMeta, COMMAND_RESPONSE_MAX>,
             Vec<u8, MAX_SYNC_MESSAGE_SIZE>,
             usize,
+            Option<(usize, Location)>,
         ),
         SyncError,
     > {
@@ -681,6 +688,10 @@ impl SyncResponder {
         let mut commands: Vec<CommandMeta, COMMAND_RESPONSE_MAX> = Vec::new();
         let mut command_data: Vec<u8, MAX_SYNC_MESSAGE_SIZE> = Vec::new();
         let mut index = self.next_send;
+        // Where the next response resumes inside a partly sent segment. Applied
+        // by the caller together with `next_send`, once the message is known
+        // to fit, so that a retry with a larger buffer loses no commands.
+        let mut resume = None;
         for i in self.next_send..self.to_send.len() {
             if commands.is_full() {
                 break;
@@ -744,15 +755,14 @@ impl SyncResponder {
                     .max_cut
                     .checked_add(sent as u64)
                     .assume("max_cut + sent mustn't overflow")?;
-                *self.to_send.get_mut(i).assume("send index in bounds")? =
-                    Location::new(location.segment, resume_max_cut);
+                resume = Some((i, Location::new(location.segment, resume_max_cut)));
                 index = i;
                 break;
             }
 
             index = i.checked_add(1).assume("index + 1 mustn't overflow")?;
         }
-        Ok((commands, command_data, index))
+        Ok((commands, command_data, index, resume))
     }
 
     fn session_id(&self) -> Result<u128, SyncError> {
